@@ -186,6 +186,7 @@ type Event struct {
 	Truth    bool
 	TruthErr error
 	HasTruth bool
+	TruthAll map[string]bool // fresh truth of every rule at a BeginCycle (optional)
 }
 
 func (e Event) String() string {
